@@ -42,7 +42,7 @@ ASSUMPTIONS = [
     "one matrix class per instance (EigenSolve caches the detected class); overall scale of A in [1e-3, 1e3], of B in "
     "[1e-2, 1e2] (the absolute tolerances of matrix_is_hermitian, K2 of DESIGN section 5, are not provoked); "
     "hermitian=True is only passed for Hermitian pencils; repeated eigenvalues only for real symmetric pencils",
-    "sparse: nmodes < n-1; FE pencils with a mass matrix that is zero on constrained dofs need rank(M) > ncv = "
+    "sparse: nmodes < n-1 (general and complex Hermitian) / nmodes < n (real symmetric pencils); FE pencils with a mass matrix that is zero on constrained dofs need rank(M) > ncv = "
     "max(2 nmodes+1, 20) for ARPACK to build its basis, meshes are chosen accordingly; the shift is never an eigenvalue; "
     "the reference spectrum is the dense spectrum of the free dofs (constrained dofs decouple)",
     "a failure of the two sparse selection clauses only that does not recur when the same instance is asked again with "
@@ -194,6 +194,14 @@ def plan(tier, seed):
                                   "fmt": ["csc", "csr", "coo"][int(rng.integers(0, 3))],
                                   "sort": SORTERS[int(rng.integers(0, len(SORTERS)))], "steps": 2 if quick else 3,
                                   "id": int(rng.integers(0, 2 ** 31))})
+    # ---- the boundary value of the option: all but one eigenpair of a small Hermitian pencil (eigsh accepts nmodes = n-1)
+    for cls in ("rsym",):           # (scipy routes complex Hermitian pencils through eigs: k < n-1 there)
+        for b in SYN_B[cls]:
+            for r in range(6 if quick else 24):
+                n = int(rng.integers(3, 10))
+                cases.append({"fam": "syn", "cls": cls, "B": b, "n": n, "n2": n, "sig": SIGMODES[r % len(SIGMODES)], "flag": "auto",
+                              "nmodes": n - 1, "fmt": ["csc", "csr", "coo"][r % 3], "sort": SORTERS[r % 3], "steps": 2,
+                              "id": int(rng.integers(0, 2 ** 31))})
     # ---- slender FE pencils: relative accuracy of the lowest eigenvalues, in-place matrix updates
     for r in range(48 if quick else 400):
         cases.append({"fam": "slender", "mesh": [[30, 2], [40, 1], [60, 1], [100, 1], [24, 3], [50, 2]][r % 6], "gen": bool(r % 2),
@@ -353,8 +361,10 @@ def _run_sparse(case, ctx, pym, make_pencil, label):
         p = make_pencil(rng, step)
         A, B = p["A"], p["B"]
         lam, cond, nBi = ref.reference_spectrum(A, B, p["hermitian"], p.get("free"))
-        if k >= len(lam) - 1:
-            raise Skip("nmodes not smaller than the number of finite eigenvalues - 1")
+        real_sym = p["hermitian"] and not np.iscomplexobj(A.toarray() if sps.issparse(A) else A) and \
+            (B is None or not np.iscomplexobj(B.toarray() if sps.issparse(B) else B))
+        if k >= len(lam) - (0 if real_sym else 1):      # ARPACK: k < n for real symmetric pencils, k < n-1 otherwise
+            raise Skip("nmodes not smaller than the number of finite eigenvalues (- 1 for non-Hermitian pencils)")
         if state is None:
             sig_arg, sig = _pick_sigma(rng, case["sig"], lam, p["hermitian"])
             kwargs = {"nmodes": karg, "sigma": sig_arg}
